@@ -36,25 +36,37 @@ def _chain_methods(e: ast.AST) -> Tuple[str, List[str]]:
 def r1_counter_key(ctx, rep):
     py = ctx.py
     fn = py.func("NameSelector.get_name")
-    # counter subscripts: self._counts[NS][KEY]
+    # counter accesses: self._counts[NS][KEY], or alias = self._counts.setdefault(NS, {}) ; alias[KEY]
     keys: Set[str] = set()
     nss: Set[str] = set()
-    key_nodes = []
+    aliases: Set[str] = set()
     for n in ast.walk(fn):
-        if isinstance(n, ast.Subscript) and isinstance(n.value, ast.Subscript) and \
-                ast.unparse(n.value.value) == "self._counts":
-            nss.add(ast.unparse(n.value.slice))
+        if isinstance(n, ast.Assign) and len(n.targets) == 1 and isinstance(n.targets[0], ast.Name):
+            v = n.value
+            if isinstance(v, ast.Call) and call_name(v) in ("self._counts.setdefault", "self._counts.get") and v.args:
+                nss.add(ast.unparse(v.args[0]))
+                aliases.add(n.targets[0].id)
+            elif isinstance(v, ast.Subscript) and ast.unparse(v.value) == "self._counts":
+                nss.add(ast.unparse(v.slice))
+                aliases.add(n.targets[0].id)
+
+    def is_table(e: ast.AST) -> bool:
+        if isinstance(e, ast.Subscript) and ast.unparse(e.value) == "self._counts":
+            nss.add(ast.unparse(e.slice))
+            return True
+        return isinstance(e, ast.Name) and e.id in aliases
+
+    for n in ast.walk(fn):
+        if isinstance(n, ast.Subscript) and is_table(n.value):
             keys.add(ast.unparse(n.slice))
-            key_nodes.append(n)
-        if isinstance(n, ast.Compare) and len(n.ops) == 1 and isinstance(n.ops[0], ast.In) and \
-                isinstance(n.comparators[0], ast.Subscript) and \
-                ast.unparse(n.comparators[0].value) == "self._counts":
-            nss.add(ast.unparse(n.comparators[0].slice))
-            keys.add(ast.unparse(n.left))
-    for n in ast.walk(fn):
-        if isinstance(n, ast.Compare) and isinstance(n.ops[0], (ast.In, ast.NotIn)) and \
-                ast.unparse(n.comparators[0]) == "self._counts":
-            nss.add(ast.unparse(n.left))
+        if isinstance(n, ast.Compare) and len(n.ops) == 1 and isinstance(n.ops[0], (ast.In, ast.NotIn)):
+            if is_table(n.comparators[0]):
+                keys.add(ast.unparse(n.left))
+            elif ast.unparse(n.comparators[0]) == "self._counts":
+                nss.add(ast.unparse(n.left))
+        if isinstance(n, ast.Call) and isinstance(n.func, ast.Attribute) and n.func.attr in ("get", "setdefault") \
+                and is_table(n.func.value) and n.args:
+            keys.add(ast.unparse(n.args[0]))
     if not keys or not nss:
         raise AnalysisError("NameSelector.get_name: counter table accesses not understood")
     # resolve local names used as key/namespace to their definitions
@@ -102,6 +114,9 @@ def r1_counter_key(ctx, rep):
         rep.ob("symbol replacement injective", False,
                "symbols are no longer replaced through a one-to-one table (regex substitution with a common "
                "replacement merges e.g. operator(<) and operator(>))", py.nloc(stem_def))
+        rep.ob("stem is path-safe", "/" in ast.unparse(stem_def.value), "'/' is still removed from the stem",
+               py.nloc(stem_def))
+        rep.ob("no lossy regex on the stem", False, "re.sub applied to the stem", py.nloc(stem_def))
     else:
         vals = [v.value for v in tables[0].values if isinstance(v, ast.Constant)]
         ks = [k.value for k in tables[0].keys]
